@@ -91,6 +91,65 @@ theorem proxy_forwards_refreshed (cfg : Cfg) (env : Env) (r : Req) (s0 s1 s' s :
   obtain ⟨e1, e2, _⟩ := stale_goes_on_with_refreshed cfg env s0 s1 s' s h1 hn0 hl h2 hn1 hr hs
   refine ⟨e1, ?_, ?_, ?_, e2⟩ <;> rw [e1]
 
+/-- a proxied request (no bypass) that is forwarded with an identity carries a session the rules accept -/
+theorem forwarded_is_authorised (cfg : Cfg) (env : Env) (r : Req) (ch : ChainOut) (s : Session)
+    (h : (proxyHandler cfg env r false ch).forwarded = some (some s)) : Authorised cfg env s := by
+  unfold proxyHandler at h
+  split at h
+  · rename_i so hok
+    simp only [Option.some.injEq] at h
+    subst h
+    rcases (getAuth_ok_iff cfg env false ch.session (some s)).1 hok with ⟨hb, _⟩ | ⟨_, s', _, hso, ha⟩
+    · cases hb
+    · simp only [Option.some.injEq] at hso
+      subst hso
+      exact ha
+  · split at h
+    · simp at h
+    · split at h
+      · rw [(doOAuthStart_refused cfg env r [] ch.cookies).1] at h; cases h
+      · rw [(signInPage_refused env 403 ch.cookies).1] at h; cases h
+  · split at h
+    · simp at h
+    · rw [(errorPage_refused 403 _).1] at h; cases h
+
+/-- **waiter_judged_on_reloaded (C08 / C12, several instances).**  A request that waited for the refresh lock while
+    ANOTHER request (another instance) refreshed the session: if it is forwarded at all, the session it is forwarded
+    with is the RE-READ one — its e-mail and its groups, not those of the copy read before the wait — and it is that
+    session the e-mail and group rules accepted. -/
+theorem waiter_judged_on_reloaded (cfg : Cfg) (env : Env) (r : Req) (s0 s1 s : Session)
+    (h1 : env.load1 = .ok s0) (hn0 : needsRefresh cfg env.now s0 = true) (hl : env.lock = .obtained)
+    (h2 : env.load2 = .ok s1) (hn1 : needsRefresh cfg env.now s1 = false)
+    (h : (proxyHandler cfg env r false (storedChainOut cfg env)).forwarded = some (some s)) :
+    s = s1 ∧ s.email = s1.email ∧ s.groups = s1.groups ∧ Authorised cfg env s1 := by
+  have hc := forwarded_is_chain_session cfg env r _ s h
+  have hs : (getValidatedSession cfg env).session = some s := hc
+  obtain ⟨e1, _, _⟩ := waiter_goes_on_with_reloaded cfg env s0 s1 s h1 hn0 hl h2 hn1 hs
+  have ha := forwarded_is_authorised cfg env r _ s h
+  subst e1
+  exact ⟨rfl, rfl, rfl, ha⟩
+
+/-- ... and so a re-read session the rules refuse is never forwarded, whatever the copy read before the wait said -/
+theorem waiter_refused_on_reloaded (cfg : Cfg) (env : Env) (r : Req) (s0 s1 : Session)
+    (h1 : env.load1 = .ok s0) (hn0 : needsRefresh cfg env.now s0 = true) (hl : env.lock = .obtained)
+    (h2 : env.load2 = .ok s1) (hn1 : needsRefresh cfg env.now s1 = false)
+    (hbad : ¬ Authorised cfg env s1) (s : Session) :
+    (proxyHandler cfg env r false (storedChainOut cfg env)).forwarded ≠ some (some s) := by
+  intro h
+  exact hbad (waiter_judged_on_reloaded cfg env r s0 s1 s h1 hn0 hl h2 hn1 h).2.2.2
+
+/-- the refreshing request is judged on the REFRESHED session (its groups are the provider's new ones) -/
+theorem refresher_judged_on_refreshed (cfg : Cfg) (env : Env) (r : Req) (s0 s1 s' s : Session)
+    (h1 : env.load1 = .ok s0) (hn0 : needsRefresh cfg env.now s0 = true) (hl : env.lock = .obtained)
+    (h2 : env.load2 = .ok s1) (hn1 : needsRefresh cfg env.now s1 = true)
+    (hr : env.refresh s1 = .refreshed s')
+    (h : (proxyHandler cfg env r false (storedChainOut cfg env)).forwarded = some (some s)) :
+    s.groups = s'.groups ∧ s.email = s'.email ∧ Authorised cfg env { s' with createdAt := some env.now } := by
+  obtain ⟨e1, _⟩ := proxy_forwards_refreshed cfg env r s0 s1 s' s h1 hn0 hl h2 hn1 hr h
+  have ha := forwarded_is_authorised cfg env r _ s h
+  subst e1
+  exact ⟨rfl, rfl, ha⟩
+
 /-- non-vacuity: a concrete environment meeting the hypotheses, forwarded with the refreshed tokens -/
 def exOld : Session := { user := "u".toList, accessToken := "at-0".toList, refreshToken := "rt-0".toList, createdAt := some 1000000000 }
 def exNew : Session := { user := "u".toList, accessToken := "at-1".toList, refreshToken := "rt-1".toList, createdAt := some 5 }
@@ -105,5 +164,15 @@ example (base : Env) : needsRefresh exCfg (exEnv base).now exOld = true := by
 example (base : Env) : (getValidatedSession exCfg (exEnv base)).session = some { exNew with createdAt := some (10 * 1000000000) } := by
   simp [getValidatedSession, refreshUnderLock, refreshOutcome, validateSessionStep, Env.validate, exEnv, exCfg, exOld, exNew,
     needsRefresh, Session.ageNs, Session.isExpired]
+
+/-- non-vacuity of the waiter theorems: stale before the wait, re-read fresh (another instance refreshed meanwhile) -/
+def exFresh : Session := { user := "u".toList, accessToken := "at-other".toList, refreshToken := "rt-other".toList,
+                           groups := ["contractors".toList], createdAt := some (10 * 1000000000) }
+def exEnvW (base : Env) : Env :=
+  { exEnv base with load2 := .ok exFresh }
+example (base : Env) : needsRefresh exCfg (exEnvW base).now exOld = true ∧ needsRefresh exCfg (exEnvW base).now exFresh = false := by
+  simp [needsRefresh, exEnvW, exEnv, exCfg, exOld, exFresh, Session.ageNs]
+example (base : Env) : (getValidatedSession exCfg (exEnvW base)).session = some exFresh := by
+  simp [getValidatedSession, refreshUnderLock, exEnvW, exEnv, exCfg, exOld, exFresh, needsRefresh, Session.ageNs]
 
 end O2P.C12Serve
